@@ -136,7 +136,10 @@ static long chooseK(){
 }
 
 // canonical order key of particle p (exchangeable particles are explored in non-decreasing key order)
-static long keyOf(const long kk[DIM]){ long r = 0; for(int d = 0; d < DIM; ++d) r = r * (2 * Side + 1) + kk[d]; return r; }
+// lexicographic comparison of two half-lattice coordinate vectors (no arithmetic on the coordinates: they may use all 63 bits on deep trees)
+struct KeyRef { const long* k; };
+static KeyRef keyOf(const long kk[DIM]){ return KeyRef{kk}; }
+static bool operator<=(const KeyRef& a, const KeyRef& b){ for(int d = 0; d < DIM; ++d){ if(a.k[d] < b.k[d]) return true; if(a.k[d] > b.k[d]) return false; } return true; }
 
 static void choosePositions(const Cfg& cfg, bool symmetric, bool symbolicPayload = true){
     for(long p = 0; p < NPART; ++p){
